@@ -110,6 +110,33 @@ func NewCtx(parent *Ctx, name string) *Ctx {
 	return &Ctx{Name: name, C: c, cancel: cancel, Parent: parent}
 }
 
+// BackgroundCtx is a context that can never end and has no Done channel at all: context.Background()
+// itself, or (valued) a value layered on it - what a caller who has nothing to cancel passes in.
+func BackgroundCtx(name string, valued bool) *Ctx {
+	var c context.Context = context.Background()
+	if valued {
+		c = context.WithValue(c, ctxKey{}, name)
+	}
+	return &Ctx{Name: name, C: c, cancel: func() {}}
+}
+
+type ctxKey struct{}
+
+// RootCtx is the context a world hands to calls it does not mean to cancel: in one run of four a
+// context that has no Done channel at all (context.Background() or a value on it), otherwise a
+// cancellable one that simply never gets cancelled.
+func RootCtx(r *R) *Ctx {
+	switch r.Choose(8, "root-ctx-kind") {
+	case 6:
+		r.Probe("root-context-without-done-channel")
+		return BackgroundCtx("root", false)
+	case 7:
+		r.Probe("root-context-without-done-channel")
+		return BackgroundCtx("root", true)
+	}
+	return NewCtx(nil, "root")
+}
+
 // NewCauseCtx derives a context that will be cancelled with a cause of its own (Err() is still
 // context.Canceled; context.Cause reports the cause).
 func NewCauseCtx(parent *Ctx, name string, cause error) *Ctx {
@@ -216,6 +243,14 @@ type Src struct {
 	BlockAt int
 	// IgnoreCtx: Next pays no attention to its context (neither at entry nor while it is slow).
 	IgnoreCtx bool
+	// ReadyBlind: Next looks at its context only when it has to wait; an item that is ready is handed
+	// over without a glance at the context (as stream.FromIterator or a slice-backed source does).
+	ReadyBlind bool
+	// DeadPulls counts the Next calls that began with a context that had already ended (a ReadyBlind
+	// source hands its item over all the same). Past DeadLimit (> 0) the source reports errStillRead
+	// instead: whoever keeps reading it does not stop because its context ended.
+	DeadPulls int
+	DeadLimit int
 	// CloseDelay: Close takes this much simulated time.
 	CloseDelay time.Duration
 	CloseRet   []uint64 // event numbers at which Close returned
@@ -233,6 +268,9 @@ type Src struct {
 	Violations []string // ownership violations observed by the source itself: kind strings
 	LastNextRet uint64
 }
+
+// errStillRead ends a source that is still being read although the context it is read with ended long ago.
+var errStillRead = NewErr("harness: the source is still being read although its context ended long ago")
 
 func NewSrc(r *R, name string, items []int) *Src {
 	return &Src{R: r, Name: name, Items: items, ErrAt: -1, BlockAt: -1}
@@ -260,7 +298,12 @@ func (s *Src) Next(ctx context.Context) (int, error) {
 	if s.IgnoreCtx {
 		ctx = context.Background()
 	}
-	if err := ctx.Err(); err != nil {
+	if ctx.Err() != nil {
+		if s.DeadPulls++; s.DeadLimit > 0 && s.DeadPulls > s.DeadLimit {
+			return 0, errStillRead
+		}
+	}
+	if err := ctx.Err(); err != nil && !s.ReadyBlind {
 		s.R.Logf("source %s: Next -> %v (context already done)", s.Name, err)
 		return 0, err
 	}
